@@ -533,5 +533,7 @@ pub fn run(p: &Params) -> Run {
         }
     }
     run.notes.push("stream 1: free-form aggregate statements (1-4 select items mixing keys, aggregates, transforms; WHERE/GROUP BY/HAVING) over 0-30 lines with 5-80% NULL fields; stream 2: typed statements over TEXT/INT/REAL/BOOLEAN/TIMESTAMP columns with per-(group, column) NULL rates of 0/30/100%, single-row groups, p in {0, .5, .99, 1}, HAVING with hidden aggregates, arithmetic wrappers — compared with an independent reference".to_owned());
+    // the end-to-end stream: the same property seen from raw texts and raw file bytes (`e2e.rs`, Lean `Pipeline.runText`)
+    crate::e2e::stream(&mut run, &mut Rng::new(p.seed ^ 0xe2e04), p.n(250, 3000), "group");
     run
 }
